@@ -150,6 +150,11 @@ func waitFor(cond func() bool, d time.Duration) bool {
 
 func propC12Sequential(t *rapid.T) {
 	size := rapid.OneOf(rapid.IntRange(1, 64), rapid.SampledFrom([]int{1, 2, 16, 64, 4096}), rapid.SampledFrom([]int{4095, 4097, 5000, 8191, 10000})).Draw(t, "size")
+	// a Size left at zero means the documented default of 256 kB - the same syncer as one configured with that number
+	sizeField := size
+	if rapid.IntRange(0, 15).Draw(t, "defaultSize") == 0 {
+		size, sizeField = 256*1024, rapid.SampledFrom([]int{0, 0, 256 * 1024}).Draw(t, "sizeAsConfigured")
+	}
 	clk := &handClock{}
 	sink := &opSink{}
 	// the clock may be a VALUE of a struct type without fields (its zero value is the only value it has, like
@@ -159,7 +164,7 @@ func propC12Sequential(t *rapid.T) {
 		c12CurrentClock = clk
 		clock = c12ValueClock{}
 	}
-	bws := &zapcore.BufferedWriteSyncer{WS: sink, Size: size, FlushInterval: time.Duration(rapid.IntRange(0, 3).Draw(t, "flushInterval")) * time.Second, Clock: clock}
+	bws := &zapcore.BufferedWriteSyncer{WS: sink, Size: sizeField, FlushInterval: time.Duration(rapid.IntRange(0, 3).Draw(t, "flushInterval")) * time.Second, Clock: clock}
 	var accepted [][]byte
 	acceptedBytes := 0
 	boundaries := map[int]bool{0: true}
